@@ -1,6 +1,6 @@
 SPECIFICATION Spec
 CONSTANTS
-  EffTokens = {"pa", "pae", "in", "w", "sp"}
+  EffTokens = {"pa", "pae", "in", "w", "sp", "pcr", "pcrb"}
   MaxEff = 2
   Modes = {"normal", "exc", "sysexit"}
   FnModes = {"normal", "exc"}
